@@ -49,7 +49,7 @@ def split_conds(flat, N, c, count, k0):
     return out, k
 
 
-def compare_state(c, mv, e_next, rtol, where):
+def compare_state(c, mv, e_next, rtol, where, e_prev_marg=None):
     N, cc, nb = gen.shape_dims(c["kind"], c["q"], c["d"])
     worst = 0.0
     mm, k = gen.split_normals(mv, N, cc, nb)
@@ -61,7 +61,8 @@ def compare_state(c, mv, e_next, rtol, where):
     if c["strat"] != "filter":
         mc, k = split_conds(mv, N, cc, nb, k)
         for a in range(nb):
-            mism, w = gen.compare_cond_plain(impl_cond_plain(e_next["cond"][a]), mc[a], max(rtol, 1e-6), where=f"{where} block {a} backward")
+            mism, w = gen.compare_cond_plain(impl_cond_plain(e_next["cond"][a]), mc[a], max(rtol, 1e-6), where=f"{where} block {a} backward",
+                                             marg=e_prev_marg[a] if e_prev_marg else None)
             if mism:
                 return mism, None
             worst = max(worst, w)
@@ -138,8 +139,14 @@ def check_trajectories(ck, cases, pid, rtol=2e-7, describe=None, shard=25, what=
         ck.notes.append(f"model evaluation failed: {str(e)[:800]}")
         ck.report(f"{pid}.model-eval", "model evaluation failed (Coq)", {"notes": ck.notes, "broken": "Run/GaussRun.v step_run/finalize_run"}, nofail=True)
         return 0.0
-    worst, skipped = 0.0, 0
+    worst, skipped, degenerate = 0.0, 0, 0
     bad = set()
+    for i, c in enumerate(cases):
+        # dynamic calibration with an (essentially) zero local scale makes gains 0/0: the result is rounding noise
+        if c["calib"].startswith("dyn") and "states" in ires[i]:
+            if any(abs(x) < 1e-9 for st in ires[i]["states"][1:] for x in st["out"]):
+                bad.add(i)
+                degenerate += 1
     for i, c in enumerate(cases):
         jc = gen.jsonable(c)
         desc = describe(c) if describe else {}
@@ -160,7 +167,11 @@ def check_trajectories(ck, cases, pid, rtol=2e-7, describe=None, shard=25, what=
             skipped += 1
             continue
         if kind_ == "step":
-            mism, w = compare_state(c, mv, r["states"][k + 1], rtol, where=f"step {k}->{k + 1}")
+            prev = r["states"][k]
+            # the backward model maps into the space of the previous state: its offset / noise are measured against that marginal
+            # (fixed-point: against the marginal it was merged down to, which is at least as large: use the first state as well)
+            pm = [impl_normal(b) for b in prev["u"]]
+            mism, w = compare_state(c, mv, r["states"][k + 1], rtol, where=f"step {k}->{k + 1}", e_prev_marg=pm)
         else:
             mism, w = compare_final(c, mv, r, rtol)
         if mism:
@@ -172,6 +183,7 @@ def check_trajectories(ck, cases, pid, rtol=2e-7, describe=None, shard=25, what=
         else:
             worst = max(worst, w)
     ck.hist["model_skipped(singular or timeout)"] = {"n": skipped}
+    ck.hist["degenerate_dynamic_scale_skipped"] = {"n": degenerate}
     ck.hist["worst_rel_discrepancy"] = {"value": worst}
     ck.hist["model_terms"] = {"n": len(terms)}
     return worst
